@@ -343,3 +343,21 @@ func quotaRunning(q *objects.Queue) bool {
 	}
 	return false
 }
+
+// TagAskLogs (diagnostics) tags the scheduling failure reasons the core logged on the pending asks.
+func (w *World) TagAskLogs() {
+	part := w.part()
+	if part == nil {
+		return
+	}
+	for _, a := range part.GetApplications() {
+		for _, r := range a.GetAllRequests() {
+			if r.IsAllocated() {
+				continue
+			}
+			for _, e := range r.GetAllocationLog() {
+				w.Tags["asklog: "+e.Message] += int(e.Count)
+			}
+		}
+	}
+}
